@@ -73,3 +73,8 @@ chk("C17", "exploration", "runtime monitoring: geometry and cell-by-cell compari
     "Text and CSV renderings of the same report (boundary-rich balances, multi-byte names, --digits -2..10, -k) are compared: equal line widths, aligned separators, 1:1 rows and cells, each numeric text cell equal to round-half-away-from-zero of the CSV amount (divided by 1000 with -k), zero blank, sign and thousands grouping; CSV cells are cross-checked against the reference ledger.",
     "Spelling of a non-zero amount that rounds to zero is not judged; row order is fixed with -a.",
     "DESIGN.md §4 C17")
+
+chk("C19", "exploration", "runtime monitoring: Go race detector on the race-instrumented binary and harness, schedule-perturbation hook, stage/day event-log trace specification, planted stage failures, porcupine linearizability check of registry histories",
+    "Four monitors: the -race build of knut over multi-file journals and every processor combination under perturbed schedules (any DATA RACE block is a violation); planted stage failures must produce a non-zero exit naming a planted fault, never a hang or success; the stage/day event log of the pipeline must satisfy the ownership hand-over specification and the printed census must equal the union of the files; in-process cpr.Seq runs and concurrent registry histories run under -race, the latter checked with porcupine against the sequential interning model.",
+    "The race detector only sees overlapping accesses in the schedules produced; perturbation widens, it does not enumerate. Porcupine timeouts are inconclusive.",
+    "DESIGN.md §4 C19")
